@@ -121,6 +121,29 @@ def step (cfgs : List ModuleCfg) (s : NState) (k : String × String) (e : Ev) : 
   | none => (s, [])
   | some g => let (g', ns) := stepG cfgs g e; (setG k g' s, ns)
 
+/-- coordinator.go:402 `responseLoop`: what the evaluator's answer amounts to.  A nil answer (the group
+    no longer exists) and NOTFOUND are dropped; every other status is an evaluation and is handed to
+    `checkAndSendResponseToModules` (`step`). -/
+inductive Answer where
+  | skipped
+  | evaluated (s : Status)
+  | bad
+  deriving Repr, DecidableEq
+
+def resultOf (text : String) : Answer :=
+  if text == "nil" then .skipped else
+  match text.toNat?.bind Status.ofNat? with
+  | none => .bad
+  | some .notFound => .skipped
+  | some s => .evaluated s
+
+/-- the loop over a sequence of answers for group `k` (`none` = nil): the evaluations it hands on -/
+def delivered : List (Option Status) → List Status
+  | [] => []
+  | none :: rest => delivered rest
+  | some .notFound :: rest => delivered rest
+  | some s :: rest => s :: delivered rest
+
 /-- verification-only op: move every stored instant back by `d` ms (≡ the clock advanced by `d`) -/
 def shiftTimes (d : Int) (s : NState) : NState :=
   s.map fun (k, g) => (k, { g with start := g.start.map (· - d), lastNotify := g.lastNotify.map fun (m, t) => (m, t - d) })
